@@ -53,6 +53,27 @@ PROPS = {
             "M2 rigid semantics: every adjoint of an atom gets the same dimension, cups/caps are identity tensors",
             "sizes <= 10 generation steps / <= 6 wires"],
     },
+    "C13": {
+        "engine": "backend",
+        "quick": (600, 50), "thorough": (12000, 800),
+        "rule": ("Each run: 1-4 random circuits (<=10 boxes, <=5 wires) over a per-run subset of the exportable "
+                 "box kinds (70% of runs quantum core only, 30% also the classical-register fringe); scheduled "
+                 "client operations: to_tk vs M3, round trip, import of peer-generated tket circuits, "
+                 "eval/get_counts through SimBackend singly, in batches of up to 3 and as sums, with "
+                 "out-of-order completion, varying result representation, compilation passes and injected "
+                 "backend failures followed by a retry. DISTINCT by (operation, circuit repr, batch size, "
+                 "position); all are NON-TRIVIAL (each compares an M3/backend result with local evaluation)."),
+        "assumptions": [
+            "pytket Op.get_unitary() gives the intended gate matrices (validated against get_statevector at start-up)",
+            "probabilities compared with atol 1e-9 on <= 5 wires / <= 10 boxes",
+            "the backend is exact (returns p * n_shots), so there is no statistical oracle"],
+        "real_stub": {
+            "real": ["/repo/discopy working tree (hooks on)", "pytket.Circuit incl. rename_units/add_bit/get_commands",
+                     "pytket Op.get_unitary()", "pytket passes RemoveRedundancies/CommuteThroughMultis",
+                     "pytket BackendResult (integer-shot representation)", "numpy"],
+            "stub": ["SimBackend job queue, clock, representation, failures (sim/tksim.py)",
+                     "M3 branch simulator and classical post-processing evaluator (sim/tksim.py)"]},
+    },
 }
 
 REAL_STUB = {
@@ -154,6 +175,8 @@ def cmd_check(prop, tier, seed, runs=None, wall=None, workers=None, first_index=
             suppressed[matched["id"]] = suppressed.get(matched["id"], 0) + 1
             continue
         n_violations += 1
+        if n_violations > 5:
+            continue          # counted; only the first five get replay files
         raw = core.write_replay(prop, spec["engine"], seed, res, res["ops"], res["violation"],
                                 False, tree, suffix=".raw")
         path = raw
